@@ -563,6 +563,42 @@ def run_one(sql, dialect, silent, limit=20.0, want_result=False):
     return out
 
 
+HISTORY_TEXTS = ["select from from", "insert into t select a from", "create table t as select (a from s", "update t set", "select a from t where",
+                 "select * from t;; select from", "with c as (select 1) select", "merge into t using s on",
+                 # valid T-SQL (so the tsql run parses and caches them), not parsable under the other dialects
+                 "INSERT INTO tgt SELECT TOP 10 a FROM [dbo].[src]", "CREATE PROCEDURE p AS SELECT 1", "select top 5 a from t with (nolock)",
+                 "insert into tgt select a from [s].[t] option (recompile)"]
+
+
+def work_history(case):
+    """process-wide state must not change the outcome class: the same text analysed first under tsql with TSQL_NO_SEMICOLON (the only
+    configuration that fills the analyzer's split cache), then under another dialect IN THE SAME PROCESS, against that dialect alone"""
+    from sqllineage.config import SQLLineageConfig
+    sql, d = case["sql"], case["dialect"]
+    alone = run_one(sql, d, False, case.get("limit", 20.0))
+    with SQLLineageConfig(TSQL_NO_SEMICOLON=True):
+        first = run_one(sql, "tsql", False, case.get("limit", 20.0))
+    after = run_one(sql, d, False, case.get("limit", 20.0))
+    after_silent = run_one(sql, d, True, case.get("limit", 20.0))
+    return {"alone": alone, "tsql_first": first, "after": after, "after_silent": after_silent}
+
+
+def part_history(chk, dialects):
+    use = [d for d in ("ansi", "mysql", "postgres", "sparksql", "bigquery") if d in dialects]
+    cases = [{"sql": t, "dialect": d} for t in HISTORY_TEXTS for d in use]
+    res = sqlimpl.pool().map(work_history, cases, chunksize=2)
+    bad = 0
+    for c, r in zip(cases, res):
+        chk.count(canon_json(["history", c["sql"], c["dialect"]]), True)
+        if r["alone"]["k"] != r["after"]["k"] or (r["alone"]["k"] == "invalidSyntax" and r["after_silent"]["k"] != "invalidSyntax"):
+            bad += 1
+            if bad == 1:
+                chk.violation("the outcome class of an analysis depends on what the process analysed before (tsql with TSQL_NO_SEMICOLON, then "
+                              f"{c['dialect']}): {r['alone']['k']} alone, {r['after']['k']} afterwards, {r['after_silent']['k']} in silent mode",
+                              {"kind": "history", "sql": c["sql"], "dialect": c["dialect"], "outcomes": {k: _brief(v) for k, v in r.items()}})
+    return {"cases": len(cases), "failures": bad}
+
+
 def _max_rename_pairs(sql, dialect):
     """class test for D10 on the implementation alone: the largest number of rename pairs one statement holder carries"""
     try:
@@ -1041,7 +1077,9 @@ def run(chk):
                               "witness": w, "now": _brief(o)})
     a = part_a(chk, drv, dialects, corpus, limit)
     b = part_b(chk, drv, dialects, limit) if drv is not None else {}
-    chk.coverage.update({"part_a": a, "part_b": b, "dialects": dialects, "corpus_texts": len(corpus),
+    h = part_history(chk, dialects)
+    sqlimpl.close_pool()
+    chk.coverage.update({"part_a": a, "part_b": b, "part_history": h, "dialects": dialects, "corpus_texts": len(corpus),
                          "corpus_calls_skipped": corpus10.harvest.skipped, "per_case_limit_s": limit, "exhaustive": False})
     chk.assumptions += [
         "totality of sqlfluff/sqlparse/networkx themselves is outside any model: the text-level part of the property is covered by "
@@ -1072,6 +1110,10 @@ def replay(chk, obj):
             chk.findings = [e for e in common.load_known_findings() if e.get("property") == "C10"]
             return 0 if known_site(chk, o, r["dialect"]) else 1
         return 1 if f else 0
+    if r.get("kind") == "history":
+        o = work_history({"sql": r["sql"], "dialect": r["dialect"]})
+        print(json.dumps({k: _brief(v) for k, v in o.items()}, indent=1))
+        return 1 if (o["alone"]["k"] != o["after"]["k"] or (o["alone"]["k"] == "invalidSyntax" and o["after_silent"]["k"] != "invalidSyntax")) else 0
     if r.get("kind") == "silent":
         d, u, pos = r["dialect"], r["unsupported"], r["position"]
         sqls = list(r["script_without"])
